@@ -125,6 +125,17 @@ theorem eq_perm_insensitive (a b : Annotation) (hseq : a.seq = b.seq) (hcharge :
     refine ⟨(hp.length_eq).trans (length_of_rel2 _ _ hr'), ?_⟩
     exact msEq_trans ivEq_bequiv L L'' L' (msEq_of_perm ivEq L L'' hp) (msEq_of_rel2 ivEq_bequiv L'' L' hr')
 
+/-- the hypotheses of `eq_perm_insensitive` on a concrete pair: `[Acetyl][Methyl]-PE` and `[Methyl][Acetyl]-PE` -/
+example :
+    let a : Annotation := { seq := "PE".toList, nterm := some [⟨.str "Acetyl".toList, 1⟩, ⟨.str "Methyl".toList, 1⟩] }
+    let b : Annotation := { seq := "PE".toList, nterm := some [⟨.str "Methyl".toList, 1⟩, ⟨.str "Acetyl".toList, 1⟩] }
+    a ≠ b ∧ ∀ s : Slot, (s.get a = none ∧ s.get b = none) ∨ ∃ l l', s.get a = some l ∧ s.get b = some l' ∧ l.Perm l' := by
+  refine ⟨by decide, ?_⟩
+  intro s
+  cases s
+  case nterm => exact Or.inr ⟨_, _, rfl, rfl, List.Perm.swap _ _ _⟩
+  all_goals exact Or.inl ⟨rfl, rfl⟩
+
 /-! ## sensitive to every other difference (one theorem per perturbation kind) -/
 
 /-- a different residue -/
@@ -146,6 +157,11 @@ theorem eq_sensitive_value (a b : Annotation) (s : Slot) (l : List Mod) (i : Nat
   apply annEq_false_of_slot a b s
   rw [ha, hb]
   exact msEq_set modEq_bequiv l i _ hi (modEq_false_of_val _ v hv)
+
+/-- the hypotheses of `eq_sensitive_value` on a concrete pair: N-terminal `Acetyl` against `Formyl` -/
+example : valEq (ModVal.str "Acetyl".toList) (.str "Formyl".toList) = false ∧
+    Slot.get .nterm exA = some [⟨.str "Acetyl".toList, 1⟩] ∧
+    annEq exA { exA with nterm := some ([⟨.str "Acetyl".toList, 1⟩].set 0 ⟨.str "Formyl".toList, 1⟩) } = false := by decide
 
 /-- one *multiplier* changed, in any slot -/
 theorem eq_sensitive_multiplier (a b : Annotation) (s : Slot) (l : List Mod) (i : Nat) (hi : i < l.length) (k : Int)
